@@ -24,7 +24,7 @@ def run(F, tier, res):
     res.assumptions += E.ASSUMPTIONS
     res.not_decided += ['path parsing (quotes, spaces, prefixes), labels, mode/binary annotations: value-level',
                         'that exactly one header is printed when file headers are not handled (raw file style): see known limitation F15b in DESIGN.md']
-    E.add_e1(res, R, {'DROP-HDR'}, 'C14')
+    E.add_e1(res, R, {'DROP-HDR', 'HDR-TWICE'}, 'C14')
     header_writers = set()
     for p in F.fn_bodies:
         pass
